@@ -107,6 +107,7 @@ VH_DECLARE_VARIANT(bi_)
 #undef aws_ctz_i64
 #undef aws_ctz_size
 
+static long long n_evals;
 #define SENT64 0x5A5A5A5A5A5A5A5AULL
 #define SENT32 0x5A5A5A5AU
 
@@ -179,7 +180,6 @@ static void res_bits(const char *v, size_t clz, size_t ctz) {
         res_arith(v, rc, r, aws_##OP##_size_saturating((size_t)a, (size_t)b), s2_, c_.x, c_.y);                        \
     } while (0)
 
-static long long n_evals;
 
 static void do_arith(const char *op, const char *ty, uint64_t a, uint64_t b) {
     vh_begin("Arith");
@@ -241,6 +241,111 @@ static void do_arith(const char *op, const char *ty, uint64_t a, uint64_t b) {
         }
         n_evals += 2;
     }
+    vh_arr_end();
+    vh_end();
+}
+
+
+/* ---- a compile-time constant as one operand.  The inline variants are expanded at each call site; with a constant operand
+ * the compiler is free to keep it wherever it likes (an immediate, a register shared with another operand of an inline-
+ * assembly statement).  One tiny out-of-line function per (variant, operation, width, constant, side): the constant is dead
+ * after the call, which is the situation in which register sharing happens.  The events are ordinary Arith events (a, b =
+ * the constant and the run-time operand), their saturating results computed by these functions. */
+#define K_LIST(X) X(0, 0) X(1, 1) X(2, 2) X(3, 0xFFFFFFFFull) X(4, 0x100000000ull) X(5, 0x8000000000000000ull) X(6, 0xFFFFFFFFFFFFFFFEull) X(7, 0xFFFFFFFFFFFFFFFFull)
+#define NK 8
+#define KF1(P, OP, T, TY, KN, KV)                                                                                      \
+    static __attribute__((noinline)) uint64_t P##k_##OP##_##T##_l##KN(TY n) {                                          \
+        return P##aws_##OP##_##T##_saturating((TY)(KV), n);                                                            \
+    }                                                                                                                  \
+    static __attribute__((noinline)) uint64_t P##k_##OP##_##T##_r##KN(TY n) {                                          \
+        return P##aws_##OP##_##T##_saturating(n, (TY)(KV));                                                            \
+    }
+#define KF_ALLK(P, OP, T, TY)                                                                                          \
+    KF1(P, OP, T, TY, 0, 0)                                                                                            \
+    KF1(P, OP, T, TY, 1, 1)                                                                                            \
+    KF1(P, OP, T, TY, 2, 2)                                                                                            \
+    KF1(P, OP, T, TY, 3, 0xFFFFFFFFull)                                                                                \
+    KF1(P, OP, T, TY, 4, 0x100000000ull)                                                                               \
+    KF1(P, OP, T, TY, 5, 0x8000000000000000ull)                                                                        \
+    KF1(P, OP, T, TY, 6, 0xFFFFFFFFFFFFFFFEull)                                                                        \
+    KF1(P, OP, T, TY, 7, 0xFFFFFFFFFFFFFFFFull)                                                                        \
+    static uint64_t (*const P##ktab_##OP##_##T##_l[NK])(TY) = {P##k_##OP##_##T##_l0, P##k_##OP##_##T##_l1, P##k_##OP##_##T##_l2, \
+        P##k_##OP##_##T##_l3, P##k_##OP##_##T##_l4, P##k_##OP##_##T##_l5, P##k_##OP##_##T##_l6, P##k_##OP##_##T##_l7};             \
+    static uint64_t (*const P##ktab_##OP##_##T##_r[NK])(TY) = {P##k_##OP##_##T##_r0, P##k_##OP##_##T##_r1, P##k_##OP##_##T##_r2, \
+        P##k_##OP##_##T##_r3, P##k_##OP##_##T##_r4, P##k_##OP##_##T##_r5, P##k_##OP##_##T##_r6, P##k_##OP##_##T##_r7};
+#define KF_VARIANT(P)                                                                                                  \
+    KF_ALLK(P, add, u64, uint64_t)                                                                                     \
+    KF_ALLK(P, mul, u64, uint64_t)                                                                                     \
+    KF_ALLK(P, add, u32, uint32_t)                                                                                     \
+    KF_ALLK(P, mul, u32, uint32_t)
+KF_VARIANT()
+KF_VARIANT(fb_)
+KF_VARIANT(ov_)
+#if VH_HAVE_ASM
+KF_VARIANT(asm_)
+#endif
+KF_ALLK(, sub, u64, uint64_t)
+KF_ALLK(, sub, u32, uint32_t)
+static const uint64_t kvals[NK] = {0, 1, 2, 0xFFFFFFFFull, 0x100000000ull, 0x8000000000000000ull, 0xFFFFFFFFFFFFFFFEull, 0xFFFFFFFFFFFFFFFFull};
+
+#define KRES(P, OP, T, TY, v)                                                                                          \
+    do {                                                                                                               \
+        TY r = (TY)SENT64;                                                                                             \
+        int rc = P##aws_##OP##_##T##_checked((TY)a, (TY)n, &r);                                                        \
+        uint64_t sl = P##ktab_##OP##_##T##_l[ki]((TY)n), sr = P##ktab_##OP##_##T##_r[ki]((TY)n);                       \
+        volatile struct ctx64 c_;                                                                                      \
+        c_.x = P##ktab_##OP##_##T##_l[ki]((TY)n);                                                                      \
+        res_arith(v, rc, r, sl, sink64(n, a, sl), c_.x, sr);                                                           \
+    } while (0)
+
+/* a = the constant kvals[ki] (truncated to the width), b = n */
+static void do_arith_k(const char *op, const char *ty, int ki, uint64_t n) {
+    bool w64 = !strcmp(ty, "u64");
+    uint64_t a = w64 ? kvals[ki] : (uint32_t)kvals[ki];
+    vh_begin("Arith");
+    vh_str("op", op);
+    vh_str("ty", ty);
+    vh_wide("a", a);
+    vh_wide("b", w64 ? n : (uint32_t)n);
+    vh_arr_begin("res");
+    if (w64) {
+        if (!strcmp(op, "add")) {
+            KRES(, add, u64, uint64_t, "lib");
+            KRES(fb_, add, u64, uint64_t, "fb");
+            KRES(ov_, add, u64, uint64_t, "ov");
+#if VH_HAVE_ASM
+            KRES(asm_, add, u64, uint64_t, "asm");
+#endif
+        } else if (!strcmp(op, "mul")) {
+            KRES(, mul, u64, uint64_t, "lib");
+            KRES(fb_, mul, u64, uint64_t, "fb");
+            KRES(ov_, mul, u64, uint64_t, "ov");
+#if VH_HAVE_ASM
+            KRES(asm_, mul, u64, uint64_t, "asm");
+#endif
+        } else {
+            KRES(, sub, u64, uint64_t, "lib");
+        }
+    } else {
+        if (!strcmp(op, "add")) {
+            KRES(, add, u32, uint32_t, "lib");
+            KRES(fb_, add, u32, uint32_t, "fb");
+            KRES(ov_, add, u32, uint32_t, "ov");
+#if VH_HAVE_ASM
+            KRES(asm_, add, u32, uint32_t, "asm");
+#endif
+        } else if (!strcmp(op, "mul")) {
+            KRES(, mul, u32, uint32_t, "lib");
+            KRES(fb_, mul, u32, uint32_t, "fb");
+            KRES(ov_, mul, u32, uint32_t, "ov");
+#if VH_HAVE_ASM
+            KRES(asm_, mul, u32, uint32_t, "asm");
+#endif
+        } else {
+            KRES(, sub, u32, uint32_t, "lib");
+        }
+    }
+    n_evals += 8;
     vh_arr_end();
     vh_end();
 }
@@ -378,6 +483,8 @@ int main(int argc, char **argv) {
             vh_end();
         } else if (vh_is("AR")) {
             do_arith(vh_args(1), vh_args(2), vh_argu(3), vh_argu(4));
+        } else if (vh_is("ARK")) {
+            do_arith_k(vh_args(1), vh_args(2), (int)(vh_argu(3) % NK), vh_argu(4));
         } else if (vh_is("BITS")) {
             do_bits(vh_args(1), vh_argu(2));
         } else if (vh_is("P2")) {
